@@ -110,6 +110,10 @@ def parse_name(name):
 def child_obj(o, tid, i, n):
     return o * 131 + tid * 17 + i * 7 + n + 1
 
+def macro_port(tid, i):
+    """the harness serves these sub-tree ports with the library's rRecurCb / rRecursCb"""
+    return (tid + i) % 3 == 0
+
 def first_number(m):
     j = 0
     while j < len(m) and not P5.isdig(m[j]):
@@ -147,10 +151,10 @@ def expected(t, addr, ty, chosen=frozenset()):
             loc = b"/" + full[off0:off + end]
             out.append((t.tid, i, off, obj, loc))
             if sub:
-                n = first_number(m) if b"#" in name else 0
-                j = m.find(b"/")
-                noff = off + (j + 1 if j >= 0 else len(m))
-                level(sub, noff, child_obj(obj, t.tid, i, n))
+                # the level below is addressed by what follows the matched name; the
+                # index an enumerated parent hands down is the one spelled at its first '#'
+                n = first_number(m[name.index(b"#"):]) if b"#" in name else 0
+                level(sub, off + end, child_obj(obj, t.tid, i, n))
         if not hit:
             nomatch_tabs.add(t.tid)
     level(t, off0, 1)
@@ -269,7 +273,13 @@ def nontrivial(case, impl):
 # ---- generator -------------------------------------------------------------------
 TYSPECS = [b"", b"", b"", b":i", b"::i", b":i:f", b":ii", b":", b":s:i", b":if:i", b":ii:f", b":i:ii"]
 
-def gen_names(rng, n, allow_hash, allow_sub, friendly=False):
+def component(rng, allow_hash):
+    c = bytes(rng.choice(b"abck") for _ in range(rng.choice([1, 1, 2])))
+    if allow_hash and rng.random() < 0.5:
+        c += b"#" + str(rng.choice([1, 2, 3, 4, 10])).encode()
+    return c
+
+def gen_names(rng, n, allow_hash, allow_sub, friendly=False, multi=False):
     names, seen = [], set()
     keys = set()
     tries = 0
@@ -280,7 +290,7 @@ def gen_names(rng, n, allow_hash, allow_sub, friendly=False):
         if rng.random() < 0.15:
             base += bytes([rng.choice(b"012")])
         if names and rng.random() < 0.25:                  # anagram / prefix / extension of an earlier one
-            b0 = rng.choice(names).split(b":")[0].split(b"#")[0].rstrip(b"/")
+            b0 = rng.choice(names).split(b":")[0].split(b"#")[0].split(b"/")[0]
             if b0:
                 r = rng.random()
                 if r < 0.4:
@@ -294,7 +304,10 @@ def gen_names(rng, n, allow_hash, allow_sub, friendly=False):
             if P5.isdig(name[-1]):
                 name += b"x"
             name += b"#" + str(rng.choice([1, 2, 3, 4, 10, 16])).encode()
-        sub = allow_sub and rng.random() < 0.3
+        if multi and rng.random() < 0.4:                   # a name of several address components: a#2/b#3/ x/y/ a#2/k#2:i u/v/w
+            for _ in range(rng.choice([1, 1, 1, 2])):
+                name += b"/" + component(rng, allow_hash)
+        sub = allow_sub and rng.random() < (0.45 if b"/" in name else 0.3)
         if sub:
             name += b"/"
         else:
@@ -323,7 +336,8 @@ def gen_tree(rng, depth, counter, maxdepth):
     n = rng.choice([1, 2, 3, 3, 4, 4, 5, 6, 8, 10, 12, 16, 20, 24]) if depth == 0 else rng.choice([1, 2, 3, 4, 6, 9])
     friendly = rng.random() < 0.45          # literal names with distinct keys: the library hashes these
     allow_hash = (not friendly) and rng.random() < 0.5
-    names = gen_names(rng, n, allow_hash, depth + 1 < maxdepth, friendly)
+    multi = rng.random() < (0.2 if friendly else 0.35)   # a '#'-free table with such a name is not hashed either
+    names = gen_names(rng, n, allow_hash, depth + 1 < maxdepth, friendly, multi)
     if not friendly and rng.random() < 0.08:
         names.insert(rng.randrange(len(names) + 1), rng.choice([b"a/b", b"b/a", b"ab/c", b"a/b:i"]))
     tid = counter[0]; counter[0] += 1
@@ -448,6 +462,18 @@ def gen(rng, tier, dist):
                 dist["table-hashed-with>=8-ports"] = dist.get("table-hashed-with>=8-ports", 0) + 1
             if tb.dflt:
                 dist["table-with-default-handler"] = dist.get("table-with-default-handler", 0) + 1
+            lit_multi_sub = False
+            for i, (name, sub) in enumerate(tb.ports):
+                key = name.split(b":")[0]
+                if b"/" in key.rstrip(b"/"):
+                    kk = "port-multi-component-%s-%s" % ("enumerated" if b"#" in key else "literal", "subtree" if sub else "leaf")
+                    dist[kk] = dist.get(kk, 0) + 1
+                    lit_multi_sub = lit_multi_sub or (sub is not None)
+                if sub and macro_port(tb.tid, i):
+                    kk = "subtree-port-served-by-" + ("rRecursCb" if b"#" in key else "rRecurCb")
+                    dist[kk] = dist.get(kk, 0) + 1
+            if lit_multi_sub and not any(b"#" in nm for nm, _ in tb.ports):
+                dist["table-without-#-with-multi-component-subtree-name"] = dist.get("table-without-#-with-multi-component-subtree-name", 0) + 1
         nt = sum(1 for _ in walk(t))
         dist["trees-with-%d-tables" % min(nt, 6)] = dist.get("trees-with-%d-tables" % min(nt, 6), 0) + 1
         s = ".".join(ser(t))
